@@ -139,13 +139,87 @@ def check_max(db, ctx, path, w, op):
     if leaves != set(cols):
         probs.append(f'the final reduction combines {len(leaves)} of the {len(cols)} accumulator lanes')
     # scalar epilogue reduces the whole spilled array
-    ret = [c for c in E.calls if c[1].endswith(('Iterator::reduce', 'Iterator::max', 'Iterator::fold', 'Iterator::max_by'))]
-    if not ret:
-        probs.append('no scalar reduction over the spilled lanes')
+    spilled_locals = {a.ptr.base[1] for a in spills}
+    why_red = scalar_max_over_whole(f, spilled_locals, op)
+    if why_red is not None:
+        probs.append(why_red)
     if probs:
         ctx.fail('R7.1', f, 'max kernel', '; '.join(probs[:4]))
     elif not bad_init:
         ctx.ok('R7.1', f, f'{f.name}: per-column {op} over all rows from a lower-bound identity; all 32 columns reduced', [f'{len(cols)} lanes', 'final tree covers every lane'])
+
+
+def scalar_max_over_whole(f, spilled_locals, op):
+    """The scalar epilogue of a max kernel returns the maximum of *all* elements of the spilled array.  None if so, else a reason.
+    Forms: x.into_iter().reduce(max) / .max() / .fold(..) / .max_by(..) over the whole array (no slicing, take, skip, step);
+    or the explicit loop  `best = x[0]; for v in &x[1..] { best = max(best, v) }` / `if v > best { best = v }`  (or over all of x)."""
+    R = X.Rec(f)
+    whole = lambda e: e[0] == 'v' and e[1] in spilled_locals
+
+    def strip_iter(e):
+        e = norm(e, True)
+        while e[0] == 'call' and len(e[2]) == 1 and e[1].endswith(('slice::iter', 'into_iter', 'Iterator::copied', 'Iterator::cloned', 'array::iter')):
+            e = norm(e[2][0], True)
+        return e
+    for bi, t in f.calls():
+        c = f.callee_short(t) or ''
+        if c.endswith(('Iterator::reduce', 'Iterator::max', 'Iterator::fold', 'Iterator::max_by')):
+            src = strip_iter(R.operand(t['args'][0]))
+            if src[0] == 'v' and not whole(src):
+                # the iterator may live in a local: follow its definitions
+                ds = f.defs().get(src[1], [])
+                vals = [strip_iter(R.call(x) if si == 'term' else R.rvalue(x)) for _, si, x in ds]
+                if vals and all(v == vals[0] for v in vals):
+                    src = vals[0]
+            if whole(src):
+                return None
+            return f'the scalar reduction runs over {X.show(src, 80)}, not over the whole spilled array'
+    # explicit loop
+    for l in range(len(f.locals)):
+        ds = f.defs().get(l, [])
+        if len(ds) < 2:
+            continue
+        inits, upds = [], []
+        for bi, si, x in ds:
+            if si == 'term':
+                v = norm(R.call(x))
+            else:
+                v = norm(R.rvalue(x))
+            in_loop = any(bi in L_['body'] for L_ in f.loops())
+            (upds if in_loop else inits).append((bi, v))
+        if len(inits) != 1 or not upds:
+            continue
+        i0 = inits[0][1]
+        first = m(('idx', '$x', ('k', 0)), i0)
+        if first is None or not whole(norm(first['$x'], True)):
+            continue
+        ok_all = True
+        for bi, v in upds:
+            # best = max(best, e) | best = e under e > best / e >= best
+            e = None
+            mm = m(('call~', ('f32::max', 'Ord::max', 'cmp::max'), ('$a', '$b')), v)
+            if mm is not None and ('v', l) in (mm['$a'], mm['$b']):
+                e = mm['$b'] if mm['$a'] == ('v', l) else mm['$a']
+            else:
+                rels = G.relations(f, R, bi)
+                if any(r[0] in ('gt', 'ge') and norm(r[1]) == v and norm(r[2]) == ('v', l) for r in rels) or \
+                        any(r[0] in ('lt', 'le') and norm(r[2]) == v and norm(r[1]) == ('v', l) for r in rels):
+                    e = v
+            if e is None or e[0] != 'elem':
+                ok_all = False
+                break
+            src = norm(e[1], True)
+            while src[0] == 'call' and len(src[2]) == 1 and src[1].endswith(('slice::iter', 'into_iter', 'Iterator::copied', 'Iterator::cloned')):
+                src = norm(src[2][0], True)
+            rest = m(('call~', ('::index', 'SliceIndex::index'), ('$x', ('agg', '$tag', (('k', '$from'),)))), src)
+            if whole(src):
+                continue
+            if rest is not None and whole(norm(rest['$x'], True)) and isinstance(rest['$tag'], tuple) and rest['$tag'][1].endswith('RangeFrom') and rest['$from'] in (0, 1):
+                continue
+            ok_all = False
+        if ok_all:
+            return None
+    return 'no scalar reduction over the whole spilled array (iterator reduction or explicit maximum loop)'
 
 
 def collect_leaves(t, op, H, w, out):
@@ -419,6 +493,42 @@ def epilogue_position_semantics(db, ctx):
                                 if common.is_usize_const(cf[3], 'C') or whole:
                                     ok = True
                                     cmp_cells = True
+        if not ok:
+            # index-loop forms: candidates MatrixCoordinates::new(x[t] as usize, t) with t over 0..len(x), possibly split into t = 0 (initial
+            # candidate) and t in 1..len(x) (loop)
+            covered = set()
+            full = False
+            arr = None
+            for g in bodies:
+                R = X.Rec(g)
+                for bi, t in g.calls():
+                    if not (g.callee_short(t) or '').endswith('MatrixCoordinates::new'):
+                        continue
+                    a0, a1 = norm(R.operand(t['args'][0])), norm(R.operand(t['args'][1]))
+                    bi_ = m(('idx', '$x', '$t'), a0)
+                    if bi_ is None or bi_['$t'] != a1 or bi_['$x'][0] != 'v' or not g.local_ty(bi_['$x'][1]).startswith('['):
+                        continue
+                    arr = bi_['$x']
+                    if a1[0] == 'k' and isinstance(a1[1], int):
+                        covered.add(a1[1])
+                    elif a1[0] == 'elem' and a1[1][0] == 'agg' and len(a1[1][2]) == 2:
+                        lo, hi = norm(a1[1][2][0]), norm(a1[1][2][1])
+                        whole_hi = common.is_len_of(hi, arr) or (hi[0] == 'k' and str(hi[1]) in g.local_ty(arr[1])) or common.is_usize_const(hi, 'C')
+                        if whole_hi and lo[0] == 'k' and isinstance(lo[1], int):
+                            covered.add(('from', lo[1]))
+            for c_ in covered:
+                if isinstance(c_, tuple) and all(k in covered for k in range(c_[1])):
+                    full = True
+            if full:
+                ok = True
+                # winner by comparing cells: a comparison between two data[pos] reads guards the update
+                for g in bodies:
+                    for bi in range(len(g.blocks)):
+                        t = g.term(bi)
+                        if t['k'] == 'switch' and t.get('discr_ty') == 'bool':
+                            d = norm(X.Rec(g).at(bi).operand(t['discr']))
+                            if d[0] == 'bin' and d[1] in ('Gt', 'Ge', 'Lt', 'Le') and any(x[0] == 'call' and x[1].endswith('::index') and 'MatrixCoordinates' in X.canon(x) for x in X.walk(d)):
+                                cmp_cells = True
         if ok and cmp_cells:
             n += 1
             ctx.ok('R7.2e', f, 'candidate (row = x[t], col = t); winner chosen by comparing data[pos]')
@@ -521,6 +631,16 @@ def r76(db, ctx):
         e = common.return_expr_single_path_allow(c)
         if e is not None and 'ge' in X.canon(norm(e)):
             okc = True
+    if not okc:
+        # loop form: positions are pushed under x >= threshold
+        Rf = X.Rec(f)
+        for bi, t in f.calls():
+            if (f.callee_short(t) or '').endswith('Vec::push'):
+                for r in G.relations(f, Rf, bi):
+                    if r[0] == 'ge' and any(x == ('p', 2) for x in X.walk(norm(r[2]))) and any(x[0] == 'elem' for x in X.walk(norm(r[1]))):
+                        okc = True
+                    if r[0] == 'le' and any(x == ('p', 2) for x in X.walk(norm(r[1]))) and any(x[0] == 'elem' for x in X.walk(norm(r[2]))):
+                        okc = True
     (ctx.ok if okc else ctx.fail)('R7.6', f, 'Scores::threshold filters with >=', *([[]] if okc else ['filter is not x >= threshold']))
     ctx.floor('R7.6', n, 3, 'StripedScores reductions')
 
